@@ -572,3 +572,151 @@ Proof. intros F. specialize (F open_race_witness). vm_compute in F. discriminate
 Lemma open_race_witness_repaired :
   let w := orun true open_race_witness oinit in panics w = O /\ open_errs w = 1%nat /\ opening w = [] /\ late w = [].
 Proof. vm_compute. repeat split. Qed.
+
+(* ---- slices held by a session's streams ---- *)
+Lemma total_held_split (f : nat * nat -> bool) l :
+  total_held l = (total_held (filter f l) + total_held (filter (fun x => negb (f x)) l))%nat.
+Proof. unfold total_held. induction l as [|x l IH]; [reflexivity|]. cbn. destruct (f x); cbn; lia. Qed.
+Lemma total_held_drop k : forall l i n, nth_error l k = Some (i, n) -> (total_held (drop_nth k l) + n = total_held l)%nat.
+Proof. unfold total_held. induction k as [|k IH]; intros [|x l] i n H; cbn in *; try discriminate; [injection H as ->; cbn; lia|]. specialize (IH _ _ _ H). lia. Qed.
+Lemma in_drop_nth {A} k : forall (l : list A) x, In x (drop_nth k l) -> In x l.
+Proof. induction k as [|k IH]; intros [|y l] x H; cbn in *; auto. destruct H as [H|H]; auto. Qed.
+
+Record PInv (w : pworld) : Prop := {
+  p_base : WInv (pb w);
+  p_live : forall h, In h (holds w) -> table_dropped (pb w) (fst h) = false;
+  p_cons : taken w = (returned w + total_held (holds w))%nat }.
+
+Lemma pinv_init : PInv pinit.
+Proof. constructor; cbn; [apply winv_init|intros h []|reflexivity]. Qed.
+
+Lemma total_held_cons x l : total_held (x :: l) = (snd x + total_held l)%nat.
+Proof. reflexivity. Qed.
+
+Lemma pstep_inv w l : PInv w -> PInv (pstep true w l).
+Proof.
+  intros [B L C]. destruct l as [b|i n|k]; cbn [pstep].
+  - constructor; cbn [pb holds taken returned].
+    + apply step_inv. assumption.
+    + intros h Hh. apply filter_In in Hh. destruct Hh as [_ Hh]. apply negb_true_iff in Hh. assumption.
+    + rewrite C. rewrite (total_held_split (fun x => table_dropped (step (pb w) b) (fst x)) (holds w)). lia.
+  - destruct (nth_error (ss (pb w)) i) as [s|] eqn:E; [|constructor; assumption].
+    destruct (cleaned s) eqn:Ec; [constructor; assumption|].
+    constructor; cbn [pb holds taken returned]; auto.
+    + intros h [<-|Hh]; [cbn [fst]; unfold table_dropped; rewrite E; assumption|auto].
+    + rewrite C, total_held_cons. cbn [snd]. lia.
+  - destruct (nth_error (holds w) k) as [[i n]|] eqn:E; [|constructor; assumption].
+    constructor; cbn [pb holds taken returned]; auto.
+    + intros h Hh. apply L. eapply in_drop_nth. eassumption.
+    + rewrite C. pose proof (total_held_drop _ _ _ _ E). lia.
+Qed.
+
+Lemma pinv_run sch : forall w, PInv w -> PInv (prun true sch w).
+Proof. unfold prun. induction sch as [|l sch IH]; intros w P; cbn; [assumption|]. apply IH, pstep_inv, P. Qed.
+
+(* every slice ever taken is back in the free lists or held by a stream of a session whose cleanup has
+   not run yet — whatever the manager's reference count: it need not reach 0 for the slices to return *)
+Theorem slices_conserved sch :
+  let w := prun true sch pinit in
+  taken w = (returned w + total_held (holds w))%nat /\
+  (forall h, In h (holds w) -> table_dropped (pb w) (fst h) = false) /\ WInv (pb w).
+Proof. intros w. destruct (pinv_run sch pinit pinv_init) as [B L C]. auto. Qed.
+
+Lemma filter_all_true {A} (f : A -> bool) l : (forall x, In x l -> f x = true) -> filter f l = l.
+Proof. induction l as [|x l IH]; intros H; cbn; [reflexivity|]. rewrite (H x (or_introl eq_refl)). f_equal. apply IH. intros y Hy. apply H. right. assumption. Qed.
+Lemma filter_all_false {A} (f : A -> bool) l : (forall x, In x l -> f x = false) -> filter f l = [].
+Proof. induction l as [|x l IH]; intros H; cbn; [reflexivity|]. rewrite (H x (or_introl eq_refl)). apply IH. intros y Hy. apply H. right. assumption. Qed.
+
+Lemma dropped_close b i j : table_dropped (step b (LClose i)) j = table_dropped b j.
+Proof.
+  cbn [step]. destruct (nth_error (ss b) i) as [s|] eqn:E; [|reflexivity].
+  unfold table_dropped, set_sess. cbn. destruct (Nat.eq_dec i j) as [<-|Hne].
+  - rewrite (nth_error_upd_same _ _ _ _ E), E. unfold close_sess. destruct (sd s); reflexivity.
+  - rewrite nth_error_upd_other by assumption. reflexivity.
+Qed.
+Lemma dropped_lambda_other b i j : i <> j -> table_dropped (step b (LLambda i)) j = table_dropped b j.
+Proof.
+  intros Hne. cbn [step]. destruct (nth_error (ss b) i) as [s|] eqn:E; [|reflexivity].
+  destruct (posted s); [|reflexivity].
+  destruct (match bm s with Some p => tbl_release p (tbl b) (unmaps b) | None => (tbl b, unmaps b) end) as [t um].
+  unfold table_dropped. cbn. rewrite nth_error_upd_other by assumption. reflexivity.
+Qed.
+Lemma dropped_lambda_self b i s : nth_error (ss b) i = Some s -> posted s = true -> table_dropped (step b (LLambda i)) i = true.
+Proof.
+  intros E Hp. cbn [step]. rewrite E, Hp.
+  destruct (match bm s with Some p => tbl_release p (tbl b) (unmaps b) | None => (tbl b, unmaps b) end) as [t um].
+  unfold table_dropped. cbn. rewrite (nth_error_upd_same _ _ _ _ E). reflexivity.
+Qed.
+
+Lemma held_by_cons a n j l : held_by j ((a, n) :: l) = ((if Nat.eqb a j then n else O) + held_by j l)%nat.
+Proof. unfold held_by. cbn [filter fst]. destruct (Nat.eqb a j); reflexivity. Qed.
+Lemma held_by_filter_other i j l : i <> j ->
+  held_by j (filter (fun x => negb (Nat.eqb (fst x) i)) l) = held_by j l.
+Proof.
+  intros Hne. induction l as [|[a n] l IH]; [reflexivity|]. cbn [filter fst]. rewrite held_by_cons.
+  destruct (Nat.eqb a i) eqn:Ea; cbn [negb].
+  - apply Nat.eqb_eq in Ea. subst a. destruct (Nat.eqb i j) eqn:E2; [apply Nat.eqb_eq in E2; congruence|]. rewrite IH. reflexivity.
+  - rewrite held_by_cons, IH. reflexivity.
+Qed.
+Lemma held_by_filter_self i l : held_by i (filter (fun x => negb (Nat.eqb (fst x) i)) l) = O.
+Proof.
+  induction l as [|[a n] l IH]; [reflexivity|]. cbn [filter fst].
+  destruct (Nat.eqb a i) eqn:Ea; cbn [negb]; [assumption|]. rewrite held_by_cons, Ea, IH. reflexivity.
+Qed.
+
+(* the cleanup of a dead session, from any invariant state: every slice its streams held is back in the
+   free lists, the other sessions' holdings are untouched, nothing is taken — and this does not depend on
+   the buffer manager being released: it may live on with any number of other references *)
+Theorem dead_session_returns_slices w i s :
+  PInv w -> nth_error (ss (pb w)) i = Some s -> cleaned s = false ->
+  let w' := pstep true (pstep true w (PBase (LClose i))) (PBase (LLambda i)) in
+  held_by i (holds w') = O /\
+  returned w' = (returned w + held_by i (holds w))%nat /\
+  (forall j, i <> j -> held_by j (holds w') = held_by j (holds w)) /\
+  taken w' = taken w /\ PInv w'.
+Proof.
+  intros P E Hc w'. assert (P' : PInv w') by (apply pstep_inv, pstep_inv, P).
+  destruct P as [B L C].
+  set (b1 := step (pb w) (LClose i)). set (b2 := step b1 (LLambda i)).
+  assert (E1 : nth_error (ss b1) i = Some (close_sess s)).
+  { unfold b1. cbn [step]. rewrite E. unfold set_sess. cbn. eapply nth_error_upd_same. eassumption. }
+  assert (Hp : posted (close_sess s) = true).
+  { pose proof (sinv_close s (w_s _ B _ _ E)) as (A0 & B0 & C0 & D0 & F0).
+    assert (Hsd : sd (close_sess s) = true) by (unfold close_sess; destruct (sd s) eqn:E0; [assumption|reflexivity]).
+    assert (Hcl : cleaned (close_sess s) = false) by (unfold close_sess; destruct (sd s); assumption).
+    destruct (B0 Hsd) as (_ & [H|H] & _); [assumption|congruence]. }
+  (* the first step changes no holding *)
+  set (w1 := pstep true w (PBase (LClose i))) in *.
+  assert (Hb1 : pb w1 = b1) by reflexivity.
+  assert (Ht1 : taken w1 = taken w) by reflexivity.
+  assert (F : forall x, In x (holds w) -> table_dropped b1 (fst x) = false) by (intros x Hx; unfold b1; rewrite dropped_close; auto).
+  assert (Hh1 : holds w1 = holds w).
+  { unfold w1. cbn [pstep holds]. fold b1. apply filter_all_true. intros x Hx. rewrite (F x Hx). reflexivity. }
+  assert (Hr1 : returned w1 = returned w).
+  { unfold w1. cbn [pstep returned]. fold b1. rewrite (filter_all_false _ _ F). cbn. lia. }
+  clearbody w1.
+  assert (Hd : forall x, In x (holds w) -> table_dropped b2 (fst x) = Nat.eqb (fst x) i).
+  { intros x Hx. destruct (Nat.eqb (fst x) i) eqn:Ex.
+    - apply Nat.eqb_eq in Ex. rewrite Ex. unfold b2. eapply dropped_lambda_self; eassumption.
+    - apply Nat.eqb_neq in Ex. unfold b2. rewrite dropped_lambda_other by congruence. unfold b1. rewrite dropped_close. auto. }
+  assert (Hh2 : holds w' = filter (fun x => negb (Nat.eqb (fst x) i)) (holds w)).
+  { unfold w'. cbn [pstep holds]. rewrite Hb1, Hh1. fold b2. apply filter_ext_in. intros x Hx. rewrite (Hd x Hx). reflexivity. }
+  assert (Hr2 : returned w' = (returned w + held_by i (holds w))%nat).
+  { unfold w'. cbn [pstep returned]. rewrite Hb1, Hh1, Hr1. fold b2. f_equal. unfold held_by. f_equal.
+    apply filter_ext_in. intros x Hx. apply Hd. assumption. }
+  split; [rewrite Hh2; apply held_by_filter_self|]. split; [assumption|].
+  split; [intros j Hne; rewrite Hh2; apply held_by_filter_other; assumption|].
+  split; [unfold w'; cbn [pstep taken]; assumption|assumption].
+Qed.
+
+(* regression: a clean() that returns early once the session is closed ("a closed session releases its
+   share memory as a whole") loses the slices while a sibling keeps the manager alive *)
+Definition slices_witness : list plabel :=
+  [PBase (LOpen 7 100 1); PBase (LOpen 7 101 1); PTake 0 50; PTake 1 5; PBase (LRemote 0); PBase (LLambda 0)].
+Lemma early_return_loses_slices :
+  ~ (forall sch, let w := prun false sch pinit in taken w = (returned w + total_held (holds w))%nat).
+Proof. intros F. specialize (F slices_witness). vm_compute in F. discriminate. Qed.
+Lemma slices_witness_ok :
+  let w := prun true slices_witness pinit in
+  taken w = 55%nat /\ returned w = 50%nat /\ holds w = [(1%nat, 5%nat)] /\ refcount 7 (pb w) = 1.
+Proof. vm_compute. repeat split. Qed.
